@@ -38,7 +38,12 @@ def main():
             "level_claimed": {"category": s.get("level", "exploration"), "text": s["level_text"],
                               "design_ref": "DESIGN.md section 5, %s" % p},
             "level_note": s["level_note"],
-            "technique": s["technique"],
+            "technique": s["technique"] + (
+                "; the same workload re-run uninstrumented under valgrind memcheck on a reduced case budget (every branch "
+                "or address depending on an uninitialised value, invalid reads/writes)"
+                if any(r.get("wrapper") == "memcheck" for r in s["runs"]) else "") + (
+                "; shared objects driven from 2..8 real threads under ThreadSanitizer with the perturbation shim"
+                if any(r.get("harness") == "prop_threads" for r in s["runs"]) else ""),
         })
     na = []
     for p in ALL:
